@@ -164,7 +164,7 @@ def tlc(module, cfg, specdir=SPEC, workers=None, timeout=600, env=None, simulate
     m = _re_inv.search(res.out)
     if m:
         res.violated = m.group(1)
-    elif "Temporal properties were violated" in res.out:
+    elif "Temporal properties were violated" in res.out or re.search(r"Temporal property \S+ was violated", res.out):
         res.violated = "temporal"
     elif re.search(r"Error: Action property", res.out):
         res.violated = "actionprop"
